@@ -1969,46 +1969,6 @@ def small_alphabet(reduced: bool = False) -> list[dict]:
         {"op": "newGraph", "inputs": [2], "outputs": [], "nodes": [], "inits": []},
         {"op": "attrEdit", "n": 0, "key": "body0", "graph": 1},
         {"op": "attrEdit", "n": 1, "key": "branches", "graphs": [1, 1]},
-        {"op": "attrEdit", "n": 0, "key": "then", "graph": 1, "spell": "add"},
-        {"op": "attrEdit", "n": 0, "key": "alpha", "plain": True, "spell": "update"},
-        {"op": "attrEdit", "n": 0, "key": "body0", "graphs": [1], "spell": "setdefault"},
-        {"op": "attrEdit", "n": 0, "key": "body0", "graphs": [1, 1], "spell": "ior"},
-        {"op": "attrEdit", "n": 0, "key": "body0", "spell": "del"},
-        {"op": "attrEdit", "n": 0, "key": "body0", "spell": "pop"},
-        {"op": "attrEdit", "n": 0, "key": "body0", "spell": "pop-default"},
-        {"op": "attrEdit", "n": 0, "key": "", "spell": "popitem"},
-        {"op": "attrEdit", "n": 0, "key": "", "clear": True},
-        {"op": "setNodeName", "n": 0, "s": "m"},
-        {"op": "setNodeName", "n": 0, "s": None},
-        {"op": "setNodeName", "n": 2, "s": "node_Id_0"},
-        {"op": "setOpType", "n": 2, "s": "Mul"},
-        {"op": "clearConst", "v": 1},
-        {"op": "io", "g": 0, "kind": "inp", "m": "sort", "keys": [1, 0, 0, 0, 0, 0, 0, 0, 0, 0, 0, 0], "rev": False},
-        {"op": "io", "g": 0, "kind": "out", "m": "sort", "keys": [1, 0, 1, 0, 0, 1, 0, 0, 0, 0, 0, 0], "rev": True},
-        {"op": "newNode", "opType": "Id", "name": None, "inputs": [3], "numOutputs": None, "outputs": None, "graph": 1, "via": "tape"},
-        {"op": "newNode", "opType": "Id", "name": None, "inputs": [0], "numOutputs": None, "outputs": [2], "graph": 0, "via": "tape", "tapeFunc": True},
-        {"op": "newNode", "opType": "Id", "name": "k", "inputs": [], "numOutputs": 2, "outputs": None, "graph": 1, "via": "tape"},
-        {"op": "newNode", "opType": "Id", "name": None, "inputs": [], "numOutputs": None, "outputs": [2, 0], "graph": None, "via": "tape"},
-        {"op": "tapeInitializer", "g": 0, "name": "c", "tname": None},
-        {"op": "tapeInitializer", "g": 0, "name": "b", "tname": None},
-        {"op": "tapeInitializer", "g": 1, "name": None, "tname": "b", "locked": True},
-        {"op": "tapeInitializer", "g": 0, "name": None, "tname": None},
-        {"op": "tapeInitializer", "g": 1, "name": "", "tname": "", "func": True},
-        {"op": "builderNode", "g": 1, "opType": "Add", "inputs": [0, 3], "k": 1, "names": ["o"]},
-        {"op": "builderNode", "g": 0, "opType": "Mul", "inputs": [4], "k": 2, "names": None, "func": True},
-        {"op": "builderNode", "g": None, "opType": "Id", "inputs": [None], "k": 2, "names": ["a", "val_0"]},
-        {"op": "remove", "g": 0, "ns": [1, 1], "safe": False, "iter": True},
-        {"op": "extend", "g": 0, "ns": [0, 0]},
-        {"op": "insertAfter", "g": 0, "a": 1, "ns": [0, 0]},
-        {"op": "sort", "g": 1},
-        {"op": "sort", "g": 0, "via": "function"},
-        # the Function / Node spellings of the membership calls (every mapped entry of API_TABLE is in this alphabet)
-        {"op": "insertBefore", "g": 0, "a": 1, "ns": [2], "via": "function"},
-        {"op": "insertAfter", "g": 0, "a": 0, "ns": [2, 1], "via": "function"},
-        {"op": "remove", "g": 0, "ns": [1], "safe": False, "via": "function"},
-        {"op": "extend", "g": 0, "ns": [2, 0], "via": "function"},
-        {"op": "insertAfter", "g": 0, "a": 0, "ns": [1], "via": "node"},
-        {"op": "io", "g": 0, "kind": "inp", "m": "append", "v": 2, "via": "function"},
         {"op": "newValueProd", "n": 0, "i": 0, "name": None},
         {"op": "append", "g": 1, "n": 1, "via": "function"},
         {"op": "io", "g": 1, "kind": "out", "m": "append", "v": 5, "via": "function"},
@@ -2024,6 +1984,53 @@ def small_alphabet(reduced: bool = False) -> list[dict]:
         {"op": "renameValues", "vs": [1, 2], "names": ["q", ""]},
         {"op": "replaceNodesAndValues", "g": 0, "ip": 0, "oldNodes": [1], "newNodes": [2], "oldVals": [4], "newVals": [5]},
     ]
+    # round 3: the calls added to the alphabet (Node.name=, op_type=, const_value=None, list.sort, every attribute-dict
+    # mutator, Tape / Builder, model-computed sort, one-shot iterators / a node listed twice, the Function / Node
+    # spellings of the membership calls): a representative core always, all of them in the full alphabet
+    A += [
+        {"op": "attrEdit", "n": 0, "key": "body0", "spell": "del"},
+        {"op": "setNodeName", "n": 0, "s": "m"},
+        {"op": "io", "g": 0, "kind": "out", "m": "sort", "keys": [1, 0, 1, 0, 0, 1, 0, 0, 0, 0, 0, 0], "rev": True},
+        {"op": "newNode", "opType": "Id", "name": None, "inputs": [3], "numOutputs": None, "outputs": None, "graph": 1, "via": "tape"},
+        {"op": "tapeInitializer", "g": 0, "name": "b", "tname": None},
+        {"op": "builderNode", "g": 1, "opType": "Add", "inputs": [0, 3], "k": 1, "names": ["o"]},
+        {"op": "remove", "g": 0, "ns": [1, 1], "safe": False, "iter": True},
+        {"op": "sort", "g": 1},
+        {"op": "insertBefore", "g": 0, "a": 1, "ns": [2], "via": "function"},
+    ]
+    if not reduced:
+        A += [
+            {"op": "attrEdit", "n": 0, "key": "then", "graph": 1, "spell": "add"},
+            {"op": "attrEdit", "n": 0, "key": "alpha", "plain": True, "spell": "update"},
+            {"op": "attrEdit", "n": 0, "key": "body0", "graphs": [1], "spell": "setdefault"},
+            {"op": "attrEdit", "n": 0, "key": "body0", "graphs": [1, 1], "spell": "ior"},
+            {"op": "attrEdit", "n": 0, "key": "body0", "spell": "pop"},
+            {"op": "attrEdit", "n": 0, "key": "body0", "spell": "pop-default"},
+            {"op": "attrEdit", "n": 0, "key": "", "spell": "popitem"},
+            {"op": "attrEdit", "n": 0, "key": "", "clear": True},
+            {"op": "setNodeName", "n": 0, "s": None},
+            {"op": "setNodeName", "n": 2, "s": "node_Id_0"},
+            {"op": "setOpType", "n": 2, "s": "Mul"},
+            {"op": "clearConst", "v": 1},
+            {"op": "io", "g": 0, "kind": "inp", "m": "sort", "keys": [1, 0, 0, 0, 0, 0, 0, 0, 0, 0, 0, 0], "rev": False},
+            {"op": "newNode", "opType": "Id", "name": None, "inputs": [0], "numOutputs": None, "outputs": [2], "graph": 0, "via": "tape", "tapeFunc": True},
+            {"op": "newNode", "opType": "Id", "name": "k", "inputs": [], "numOutputs": 2, "outputs": None, "graph": 1, "via": "tape"},
+            {"op": "newNode", "opType": "Id", "name": None, "inputs": [], "numOutputs": None, "outputs": [2, 0], "graph": None, "via": "tape"},
+            {"op": "tapeInitializer", "g": 0, "name": "c", "tname": None},
+            {"op": "tapeInitializer", "g": 1, "name": None, "tname": "b", "locked": True},
+            {"op": "tapeInitializer", "g": 0, "name": None, "tname": None},
+            {"op": "tapeInitializer", "g": 1, "name": "", "tname": "", "func": True},
+            {"op": "builderNode", "g": 0, "opType": "Mul", "inputs": [4], "k": 2, "names": None, "func": True},
+            {"op": "builderNode", "g": None, "opType": "Id", "inputs": [None], "k": 2, "names": ["a", "val_0"]},
+            {"op": "extend", "g": 0, "ns": [0, 0]},
+            {"op": "insertAfter", "g": 0, "a": 1, "ns": [0, 0]},
+            {"op": "sort", "g": 0, "via": "function"},
+            {"op": "insertAfter", "g": 0, "a": 0, "ns": [2, 1], "via": "function"},
+            {"op": "remove", "g": 0, "ns": [1], "safe": False, "via": "function"},
+            {"op": "extend", "g": 0, "ns": [2, 0], "via": "function"},
+            {"op": "insertAfter", "g": 0, "a": 0, "ns": [1], "via": "node"},
+            {"op": "io", "g": 0, "kind": "inp", "m": "append", "v": 2, "via": "function"},
+        ]
     return A
 
 
@@ -2522,16 +2529,13 @@ def _query_probe() -> list[str]:
     import onnx_ir as ir
 
     real = Real()
-    part = Part()
     run = [dict(o) for o in PRELUDE] + [
         {"op": "attrEdit", "n": 0, "key": "body0", "graph": 1},
         {"op": "io", "g": 1, "kind": "out", "m": "append", "v": 5},
     ]
     for op in run:
         real.apply(op)
-    del part
     bad: list[str] = []
-    before = deep_snapshot(real)
     targets = {
         "Graph": real.graphs[0], "Function": real.GF({"g": 0, "via": "function"}), "Node": real.nodes[0],
         "Value": real.vals[3], "GraphInputs": real.graphs[0].inputs, "GraphOutputs": real.graphs[0].outputs,
